@@ -235,9 +235,92 @@ def run(R):
             "yield (a try/except around the yield no longer catches it, and the futures yielded alongside are never awaited)")
     n_slots = common.exception_slot_types(R, "C02.ERR-TYPE", ("futures.FutureBase", "async_task.AsyncTask", "batching.BatchBase", "batching.BatchItemBase"))
     R.need(n_slots >= 4, "fewer exception-carrying slots in the .pxd files than confirmed by hand (%d < 4)" % n_slots)
+    common.annotation_narrowing(R, "C02.ERR-TYPE")
     capture_guard(R, ro, "C02.CAPTURE-GUARD")
+    # ---- the error decides between send() and throw() by identity, not by truth value
+    sends = [(n, c) for n, c in ro.step_sites(step) if q.attr_call(c)[1] == "send"]
+    scfg_ = cfg_of(step)
+
+    def no_error(nd):
+        if nd.kind != "test":
+            return None
+        k, s_, pos = q.atom_test(nd.ast)
+        if k == "isnone" and s_ == ep:
+            return "T" if pos else "F"
+        return None
+    for n, c in sends:
+        p = kit.path_avoiding_guard(scfg_, [n], no_error, N)
+        R.check(p is None, "C02.FLOW-THROW", step.qualname + ":send-guard", R.site(step, c),
+                "the generator is resumed with send() only when `%s is None`" % ep,
+                "send() is reachable while an error is pending (the test is not `%s is None`: an exception object whose truth value is false - an "
+                "empty aggregate error, one defining __bool__/__len__ - counts as no error): the failure is dropped and the task resumes with None" % ep,
+                scfg_.fmt_path(p) if p else None)
+    last_value_fresh(R, ro, "C02.FLOW-FRESH")
+    exits_do_not_suppress(R, "C02.EXIT-PROPAGATES")
     R.require_min("C02.FLOW-THROW", 3)
     R.require_min("C02.ESCAPE", 3)
+
+
+def last_value_fresh(R, ro, rule):
+    """What the task yielded is unwrapped (values delivered, the first failure raised) once, at the task's next step.  Across a step
+    `_last_value` is therefore replaced: it is cleared before the generator is entered, on every path to send()/throw(), or the
+    method that receives the generator's yield result stores it on every path (also for a bare `yield`).  If neither holds, the
+    previous yield's structure is unwrapped again at the following step: an exception the task caught and handled is raised in it
+    a second time, or a stale result is sent in."""
+    step = ro.generator_step_fn()
+    driver = ro.step_method_task()
+    scfg = cfg_of(step)
+    fld = None
+    for c in q.calls(driver.node):
+        if q.call_name(c) == "unwrap" and c.args and q.src(c.args[0]).startswith("self."):
+            fld = q.src(c.args[0])[5:]
+    R.need(fld is not None, "idiom: %s does not unwrap a field of the task" % driver.qualname)
+    writes_s = kit.store_nodes(step, fld)
+    sites = ro.step_sites(step)
+    cleared = bool(writes_s) and all(scfg.find_path([scfg.entry], [n], N, cut_nodes=writes_s) is None for n, c in sites)
+    # the method handed the stepper's result
+    acc = None
+    for c in q.calls(driver.node):
+        if c.args and any(c.args[0] is dc for dn, dc in ro.calls_to(driver, [step])):
+            rc, nm = q.attr_call(c)
+            if rc is not None and q.dotted(rc) == "self":
+                acc = ro.AsyncTask.find_method(nm)
+    R.need(acc is not None, "idiom: the generator's yield result is not handed to a method of the task")
+    acfg = cfg_of(acc)
+    writes_a = kit.store_nodes(acc, fld)
+    pa = acfg.find_path([acfg.entry], [acfg.exit], N, cut_nodes=writes_a)
+    stored = bool(writes_a) and pa is None
+    R.check(cleared or stored, rule, "%s:%s" % (driver.qualname, fld), R.site(acc),
+            "self.%s is replaced across every step (%s)" % (fld, "cleared before the generator is entered" if cleared else "stored by %s on every path" % acc.name),
+            "self.%s can survive a step: %s does not clear it on every path to send()/throw(), and %s can return without storing the new yield result - "
+            "the structure the task yielded before is unwrapped again at its next step (an exception it already handled is raised a second time, "
+            "a stale value is sent in)" % (fld, step.name, acc.name), acfg.fmt_path(pa) if pa else None)
+
+
+def exits_do_not_suppress(R, rule):
+    """A with-block of one of asynq's context classes does not swallow the exception that leaves it: __exit__ returns nothing (or a
+    constant false value) on every path.  A true value suppresses the exception - the task goes on as if its block had succeeded -
+    and returning a future is worse: its truth value raises TypeError in the compiled build, which replaces the original exception."""
+    n = 0
+    for c in R.repo.all_classes():
+        if c.module.name in ("mock_",):
+            continue
+        m = c.methods.get("__exit__")
+        if m is None:
+            continue
+        for r_ in [x for x in q.scope_nodes(m.node) if isinstance(x, ast.Return)]:
+            n += 1
+            v = r_.value
+            ok = v is None or (isinstance(v, ast.Constant) and not v.value)
+            R.check(ok, rule, "%s:%s" % (m.qualname, q.stmt_key(r_)[:40]), R.site(m, r_),
+                    "%s.__exit__ returns nothing" % c.name,
+                    "%s.__exit__ returns `%s`: a true value suppresses the exception that is leaving the with-block (it never reaches the task's "
+                    "except clauses or its awaiters), and a future returned here cannot even be truth-tested (TypeError in the compiled build replaces "
+                    "the original exception)" % (c.name, q.src(v)[:50]))
+        if not [x for x in q.scope_nodes(m.node) if isinstance(x, ast.Return)]:
+            n += 1
+            R.ok(rule, R.site(m), "%s.__exit__ has no return statement" % c.name)
+    R.need(n >= 3, "fewer __exit__ methods than confirmed by hand (%d < 3)" % n)
 
 
 def batch_err(R, ro, rule, hier):
@@ -361,6 +444,32 @@ def batch_err(R, ro, rule, hier):
             R.check(ok, rule + ".SAME-INSTANCE", key, site,
                     "items left unset receive the batch's own error object (an AssertionError only when the flush itself succeeded)",
                     "items left unset by a failed flush receive something other than the batch's own exception instance (%s)" % q.src(a)[:80])
+    # completing the leftover items must not depend on user code that can raise: building the message from the item's or the batch's
+    # text form runs a user __str__/__repr__ in the middle of the loop; when it raises, this item and every later one stay pending
+    # and the batch's own completion is never announced (the exception is swallowed by _compute's handler: the batch counts as computed)
+    from .c20 import safe_operand
+    import re as _re
+    for lp in [n for n in ast.walk(comp.node) if isinstance(n, ast.For) and common.iterates_items(comp.node, n.iter)]:
+        for node in ast.walk(lp):
+            bad_ = []
+            if isinstance(node, ast.BinOp) and isinstance(node.op, ast.Mod) and isinstance(node.left, ast.Constant) and isinstance(node.left.value, str):
+                convs = [c_ for c_ in _re.findall(r"%[-#0 +]*\d*(?:\.\d+)?([a-zA-Z%])", node.left.value) if c_ != "%"]
+                ops = node.right.elts if isinstance(node.right, ast.Tuple) else [node.right]
+                for i_, o_ in enumerate(ops):
+                    if (convs[i_] if i_ < len(convs) else "s") in ("s", "r", "a") and not safe_operand(comp, o_):
+                        bad_.append(o_)
+            elif isinstance(node, ast.Call) and (q.call_name(node) in ("str", "repr", "format") or q.attr_call(node)[1] in ("to_str", "__str__", "__repr__", "format")) \
+                    and not (q.call_name(node) or "").startswith("debug."):
+                bad_.append(node)
+            elif isinstance(node, ast.FormattedValue) and not safe_operand(comp, node.value):
+                bad_.append(node)
+            for o_ in bad_:
+                prot = any(kit.handler_covers(h, "Exception", hier) and not kit.handler_reraises(h) for t in kit.enclosing_try_handlers(o_)
+                           if any(t is sub for sub in ast.walk(lp)) for h in t.handlers)
+                R.check(prot, rule + ".ITEMS-TOTAL", "%s:%s" % (comp.qualname, q.src(o_)[:40]), R.site(comp, o_),
+                        "`%s` is contained inside the loop" % q.src(o_)[:40],
+                        "the loop that completes the leftover items turns `%s` into text: a user __str__/__repr__ that raises there leaves this item and "
+                        "all later ones pending for ever, and the batch's completion is never announced (flush() itself returns normally)" % q.src(o_)[:40])
     R.check(n_own >= 1, rule + ".SAME-INSTANCE", comp.qualname + ":own", R.site(comp),
             "the batch's own error object is handed to the unset items", "no item completion passes the batch's own error object")
     # the item loop runs on every path of _computed before the base notification
